@@ -145,7 +145,18 @@ impl Ctx {
   }
   pub fn build_concat(&mut self, t: &T) -> ConcatSource {
     let T::Concat(cs) = t else { panic!("not a concat") };
-    // alternate between `new` with all items and `new` + `add`, deterministically from the shape
+    // alternate between `new` with all items and `default` + `add`, deterministically from the shape
+    let all_typed = !cs.is_empty() && cs.iter().all(|(typed, child)| *typed && matches!(child, T::Concat(_)));
+    let none_typed = cs.iter().all(|(typed, child)| !(*typed && matches!(child, T::Concat(_))));
+    let use_new = t.nodes() % 2 == 0;
+    if use_new && all_typed {
+      let items: Vec<ConcatSource> = cs.iter().map(|(_, child)| self.build_concat(child)).collect();
+      return ConcatSource::new(items);
+    }
+    if use_new && none_typed {
+      let items: Vec<BoxSource> = cs.iter().map(|(_, child)| self.build(child)).collect();
+      return ConcatSource::new(items);
+    }
     let mut c = ConcatSource::default();
     for (typed, child) in cs {
       if *typed && matches!(child, T::Concat(_)) { c.add(self.build_concat(child)); } else { c.add(self.build(child)); }
